@@ -396,7 +396,10 @@ class SerializationMethodVisitor(
                     or field_default is Undefined,
                     (is_union_of(field.type, NoneType) and self.exclude_none)
                     or field.none_as_undefined
-                    or (field_default is None and self.exclude_defaults),
+                    or (
+                        field_default is None
+                        and (field.skip.serialization_default or self.exclude_defaults)
+                    ),
                     (field.skip.serialization_default or self.exclude_defaults)
                     and field_default not in (None, Undefined),
                     field_default,
